@@ -21,6 +21,7 @@ func init() {
 		{"c13-requests", "c01-requests", 3}, {"c13-responses", "c02-responses", 3}, {"c13-tunnels", "c03-tunnel", 3},
 		{"c13-access", "c04-access", 3}, {"c13-routing", "c05-routing", 2}, {"c13-faults", "c12-upstream-faults", 4},
 		{"c13-hostile", "c12-hostile-client", 2}, {"c13-stalls", "c15-stalls", 1}, {"c13-shutdown", "c11-shutdown", 3},
+		{"c13-socks-faults", "c12-socks-faults", 2}, {"c13-mitm", "c07-mitm", 1},
 	} {
 		base := core.WorldByName(x.from)
 		if base == nil {
